@@ -60,6 +60,9 @@ func (s String) Cut(st funcGen.Stack[Value]) (Value, error) {
 	if p, ok := st.Get(1).(Int); ok {
 		if n, ok := st.Get(2).(Int); ok {
 			str := string(s)
+			if len(str) == 0 {
+				return String(""), nil
+			}
 			for i := 0; i < int(p); i++ {
 				_, l := utf8.DecodeRuneInString(str)
 				str = str[l:]
